@@ -268,6 +268,27 @@ def run_model(driver, outdir, timeout=3000):
             o.write(open(p + '.out', 'rb').read()); os.remove(p); os.remove(p + '.out')
     return ok, n, time.time() - t0
 
+def reroute_bad_ops(drivers, outdir, timeout=600):
+    """case lines the main driver does not know (`?bad-op`) are answered by the drivers of the extra groups"""
+    cases = open(os.path.join(outdir, 'cases.txt'), encoding='utf-8', errors='replace').read().split('\n')
+    mp = os.path.join(outdir, 'model.txt')
+    model = open(mp, encoding='utf-8', errors='replace').read().split('\n')
+    bad = [i for i, m in enumerate(model) if m == '?bad-op' and i < len(cases)]
+    for d in drivers:
+        if not bad: break
+        with open(os.path.join(outdir, 'reroute.txt'), 'w') as o:
+            o.write('\n'.join(cases[i] for i in bad) + '\n')
+        rc, out, dt = sh('%s < reroute.txt > reroute.out' % d, cwd=outdir, timeout=timeout)
+        if rc != 0: continue
+        res = open(os.path.join(outdir, 'reroute.out'), encoding='utf-8', errors='replace').read().split('\n')
+        for k, i in enumerate(bad):
+            if k < len(res): model[i] = res[k]
+        bad = [i for i in bad if model[i] == '?bad-op']
+    open(mp, 'w').write('\n'.join(model))
+    for f in ('reroute.txt', 'reroute.out'):
+        try: os.remove(os.path.join(outdir, f))
+        except OSError: pass
+
 def diff_results(outdir, limit=20):
     """returns (n_compared, [ (lineno, case, impl, model) ])"""
     dis = []; n = 0
